@@ -67,7 +67,7 @@ def run_tlc(specdir, module, cfg, wname, workers=8, timeout=900, simulate=None, 
             tlc_seed=None, coverage=False, env_extra=None, java_opts=None, extra=None, dfid=None):
     """Run TLC on specdir/module.tla with config cfg.  Never raises on invariant violation;
     raises ToolError on timeouts / crashes."""
-    meta = workdir("tlc_" + wname)
+    meta = workdir("tlc_%s_%d" % (wname, os.getpid()))     # per process: checks of different families may run side by side
     cmd = ["timeout", str(timeout), "tlc", "-workers", str(workers), "-metadir", meta, "-cleanup",
            "-noGenerateSpecTE", "-config", cfg]
     if simulate is not None:
@@ -393,7 +393,7 @@ def split_blocks(recs):
     return blocks
 
 
-def tv_blocks(v, prop, specdir, module, const_lines, invs, trace_path, wname, conform="Conform", max_viol=5, timeout=900):
+def tv_blocks(v, prop, specdir, module, const_lines, invs, trace_path, wname, conform="Conform", max_viol=5, timeout=3000):
     """Validate a recorded ndjson trace made of `reset`-separated blocks against `module` (a trace spec whose
     position variable is `l`).  Invariants `invs` are the property-level ones (evaluated on recorded outputs);
     `conform` is the model-conformance invariant.  A block failing only `conform` is DRIFT; a block failing a
